@@ -82,6 +82,7 @@ class Recorder(object):
         self.on_commit = []       # callables(recorder, commit tuple)
         self.enabled = True
         self.ctx_tags = []        # handler name stack provider
+        self.n_commits_all = 0    # every session commit, tracked rows or not
 
     def _task_label(self):
         t = self.sim.me()
@@ -99,6 +100,7 @@ class Recorder(object):
         return dict((e.id, e.seq) for e in self.events if e.op == 'insert')
 
     def commit(self, session):
+        self.n_commits_all += 1
         evs = self.pending.pop(id(session), [])
         if not evs:
             return
